@@ -729,7 +729,9 @@ H_Fault(e) ==
                \A x \in E2 : (Has(E, x[1]) /\ x[3] \in Ids(E) /\ x[3] # 0) => At(E, x[1])[3] = x[3])
         /\ Chk("C07", "loss_bound", e,
                CASE kind \in {1, 3} -> lost \subseteq {e.fault.victim} \cup removedByVerdict \cup
-                                          (IF e.op \in KeyAddingOps \/ e.op = "Extend" THEN {} ELSE {})
+                                          \* an entry chain may have removed its own key in a step that completed
+                                          \* before the faulted one; its closures only ever get that element
+                                          (IF e.op \in {"Entry", "RawEntry"} THEN {e.k} ELSE {})
                  [] kind = 0 -> IF e.op \in KeyAddingOps
                                 THEN lost \subseteq {e.fault.victim}    \* the element being relocated when its hash panicked
                                 ELSE IF e.op \in {"Get", "Remove", "RemoveEntry", "SRemove", "STake", "SContains", "SGet", "Iter", "Retain", "DrainFilter", "Clear", "Drain"}
@@ -873,7 +875,10 @@ Dispatch(e) ==
 LeakOf(e) ==
     IF e.op = "Drain" /\ e.end = "forget" /\ Alive(snap, e.s)
     THEN [ids |-> IF IsFull(Pre(e.s)) THEN Ids(Cont(Pre(e.s)) \ ToSet(e.yield)) ELSE {},
-          allocs |-> Tables(Pre(e.s))]
+          \* the main table, and the old one unless a next() call already went past its last
+          \* element (RawDrain drops the exhausted old-table iterator, freeing that table)
+          allocs |-> (IF Pre(e.s).mB > 1 THEN 1 ELSE 0)
+                     + (IF IsSplit(Pre(e.s)) /\ Len(e.yield) <= Pre(e.s).oI THEN 1 ELSE 0)]
     ELSE IF Faulted(e) /\ e.fault.fired = 1 /\ e.op = "CloneFrom"
     THEN \* "an interrupted clone_from ... possibly leaking clones"
          [ids |-> ToSet(e.led.new) \ (AllIds(e.st) \cup ToSet(e.led.drop)), allocs |-> 0]
